@@ -38,6 +38,20 @@ func (cp *ConditionProbe) probe(obj *unstructured.Unstructured) (success bool, m
 		return false, "malformed"
 	}
 
+	// A condition type may (wrongly) be reported more than once.
+	// Every entry of the probed type has to be up to date, not just the first one.
+	for _, condI := range conditions {
+		cond, ok := condI.(map[string]any)
+		if !ok || cond["type"] != cp.Type {
+			continue
+		}
+		if observedGeneration, ok, err := unstructured.NestedInt64(
+			cond, "observedGeneration",
+		); err == nil && ok && observedGeneration != obj.GetGeneration() {
+			return false, "outdated"
+		}
+	}
+
 	for _, condI := range conditions {
 		cond, ok := condI.(map[string]any)
 		if !ok {
